@@ -37,7 +37,7 @@ if kind == "bug":
     Deliverables (all under {wt}/seed/):
     1. patch.diff  - output of `git -C {wt} diff -- ofxtools` (source change only; make sure seed/ itself is not in it).
     2. demo.py     - the demonstration.
-    3. NOTES.md    - which part of the property is broken, what exactly is needed for it to manifest (inputs / sequence / interleaving / fault), and the exact commands you ran with their results: (a) full test suite WITH the change passes, (b) demo fails WITH the change, (c) demo passes WITHOUT the change (use `git stash` or `git apply -R seed/patch.diff` to check, then re-apply).
+    3. NOTES.md    - which part of the property is broken, what exactly is needed for it to manifest (inputs / sequence / interleaving / fault), and the exact commands you ran with their results: (a) full test suite WITH the change passes, (b) demo fails WITH the change, (c) demo passes WITHOUT the change (use `git apply -R seed/patch.diff` to check, then re-apply with `git apply seed/patch.diff`; NEVER use `git stash`: the stash is shared with sibling worktrees that other people are using right now).
     Leave the worktree with your change applied (uncommitted). Do not commit. In your final answer, summarise the change in 3-5 lines and paste the final test-suite summary line and both demo results.""")
     
 else:
@@ -45,7 +45,7 @@ else:
     
     IMPORTANT environment notes:
     - Use /venv/bin/python (3.12). `import ofxtools` normally resolves to /repo (editable install), so ALWAYS run with the worktree first on the path: `cd {wt} && PYTHONPATH={wt} /venv/bin/python ...` and verify once with `cd {wt} && PYTHONPATH={wt} /venv/bin/python -c "import ofxtools; print(ofxtools.__file__)"` that it prints a path under {wt}.
-    - Full test suite (3592 tests, ~30-60 s): `cd {wt} && PYTHONPATH={wt} /venv/bin/python -m pytest -q -p no:cacheprovider -n 4`. No network is available. The `requests` library is NOT installed (the client uses its urllib branch). Only the Python standard library may be used.
+    - Full test suite (3592 tests, ~30-60 s): `cd {wt} && PYTHONPATH={wt} /venv/bin/python -m pytest -q -p no:cacheprovider -n 4`. No network is available. The `requests` library is NOT installed (the client uses its urllib branch). Only the Python standard library may be used. NEVER use `git stash` (the stash is shared with sibling worktrees that other people are using right now); to compare with the original code use `git diff -- ofxtools > seed/patch.diff; git apply -R seed/patch.diff; ...; git apply seed/patch.diff`.
     
     THE PROPERTY that the code currently satisfies and MUST KEEP satisfying:
     
